@@ -43,7 +43,8 @@ def jobs(tier, seed):
     two = list(itertools.product(QS, repeat=2))
     for i in range(0, len(two), 9):
         out.append(('sock', 2, i, 9, 1, 4096))
-    out.append(('sock', 2, 0, 20, 1, 3))
+    for i in range(0, 20, 5):       # bufsize 3: many receives per sequence, the slowest runs of this check - small jobs
+        out.append(('sock', 2, i, 5, 1, 3))
     rnd = random.Random(seed + 17)
     three = list(itertools.product(QS, repeat=3))
     pick = rnd.sample(range(len(three)), 32 if tier == 'quick' else 120)
